@@ -12,6 +12,7 @@ if [ $CONFIRM == 1 ]; then
   WT=$(mktemp -d /tmp/seedwt.XXXX); rmdir $WT
   git -C /repo worktree add -q --detach $WT HEAD || exit 2
   ( cd $D && PYTHONPATH=$WT/src timeout 300 /venv/bin/python demo.py > /tmp/demo_clean.log 2>&1; echo "demo clean exit=$?" )
+  DEMO_CLEAN_SHOWN=1
   git -C $WT apply $D/patch.diff || { echo "patch does not apply"; git -C /repo worktree remove --force $WT; exit 2; }
   ( cd $WT && PYTHONPATH=$WT/src /venv/bin/python -m pytest -q -p no:cacheprovider --timeout=900 -rA 2>&1 | grep PASSED | sed 's/PASSED //' | sort > /tmp/passed_seed.txt )
   python3 - <<'PY'
@@ -21,8 +22,19 @@ passed=set(l.strip().replace('/','.').replace('.py::','::') for l in open('/tmp/
 missing=[t for t in b['stable_pass'] if t not in passed]
 print("baseline tests with patch: %d/37 pass%s" % (37-len(missing), (" MISSING "+str(missing)) if missing else ""))
 PY
-  ( cd $D && PYTHONPATH=$WT/src timeout 300 /venv/bin/python demo.py > /tmp/demo_patched.log 2>&1; echo "demo patched exit=$?" )
+  ( cd $D && PYTHONPATH=$WT/src timeout 300 /venv/bin/python demo.py > /tmp/demo_patched.log 2>&1; echo "demo patched exit=$?" > /tmp/demo_patched.rc; cat /tmp/demo_patched.rc )
   git -C /repo worktree remove --force $WT
+  python3 - $D <<'PY'
+import json,sys,re
+d=sys.argv[1]; m=json.load(open(d+'/meta.json'))
+rc=int(re.search(r'exit=(\d+)', open('/tmp/demo_patched.rc').read()).group(1))
+b=json.load(open('/root/.vp/BASELINE.json'))
+passed=set(l.strip().replace('/','.').replace('.py::','::') for l in open('/tmp/passed_seed.txt'))
+missing=[t for t in b['stable_pass'] if t not in passed]
+m['confirmed_by_verif_author']={"how":"tools_seeded.sh --confirm: scratch worktree of /repo HEAD; demo.py with PYTHONPATH=<worktree>/src on the clean worktree, git apply patch.diff, the 37 baseline tests, demo.py again; worktree removed",
+  "demo_exit_with_patch":rc,"baseline_tests_with_patch":"%d/37 pass" % (37-len(missing))}
+json.dump(m,open(d+'/meta.json','w'),indent=1)
+PY
 fi
 [ -z "$(git -C /repo status --short)" ] || { echo "/repo working tree is not clean"; exit 2; }
 git -C /repo apply $D/patch.diff || { echo "patch does not apply to /repo"; exit 2; }
